@@ -13,6 +13,8 @@ def idle : Forecaster where
   fit := fun _ _ _ => W.fail .other
   update := fun _ _ _ => W.fail .other
   predict := fun _ _ => W.fail .other
+  cutoff := fun _ => none
+  setCutoff := fun s _ => s
 
 /-- the i-th member (`idle` beyond the end) -/
 def member (Fs : List Forecaster) (i : Nat) : Forecaster := Fs.getD i idle
@@ -64,7 +66,7 @@ def isUpdate : Op → Bool | .update _ _ => true | _ => false
 /-- The transformed representation of a history, computed by the transformers alone (no forecaster
 involved): `fit y` fits the chain on `y` and yields the fully transformed series; `update y` updates
 each transformer with, and lets it transform, the batch transformed so far; `predict` is passed on
-with the remembered horizon. -/
+with the remembered horizon, and so are moves of the cutoff. -/
 def reprOps (Ts : List Transformer) : TStates Ts → Option Horizon → List Op → W (TStates Ts × List Op)
   | ts, _, [] => pure (ts, [])
   | ts, cur, .predict fh :: r => do
@@ -74,6 +76,9 @@ def reprOps (Ts : List Transformer) : TStates Ts → Option Horizon → List Op 
       let (ts1, yt) ← updateChainT Ts ts y up
       let (ts', r') ← reprOps Ts ts1 cur r
       pure (ts', .update yt up :: r')
+  | ts, cur, .setCutoff c :: r => do
+      let (ts', r') ← reprOps Ts ts cur r
+      pure (ts', .setCutoff c :: r')
   | _, cur, .fit y fh :: r => do
       let (ts1, yt) ← fitChain Ts y
       let (ts', r') ← reprOps Ts ts1 (fitFh cur fh) r
@@ -92,6 +97,8 @@ def spy : Forecaster where
   fit := fun s y fh => pure (s ++ [.fit y fh])
   update := fun s y up => pure (s ++ [.update y up])
   predict := fun s fh => pure (s ++ [.predict fh], [])
+  cutoff := fun _ => none
+  setCutoff := fun s c => s ++ [.setCutoff c]
 
 /-- a stateless transformer that doubles every value (inverse: halves) and has an `update` method -/
 def doubler : Transformer where
